@@ -511,10 +511,8 @@ def _report(run, rp, stage, events, meta, viol, models_of):
         h, sd, i, t = c["rep"]
         ev = evindex[(t, i)]
         letters = {x: {k: rp.table[x][k] for k in ("entry", "args", "mo", "acc")} for x in set(h) | set(c["cls"])}
-        what = "%s: step %d (%s) of history [%s] under PYTHONHASHSEED=%d: %s; alone: %s" % (
-            c["prop"], i, h[i - 1], "; ".join(h), sd, what_differs(ev, c["prop"]),
-            ("ok " + ev["idig"]) if ev["iok"] else ev["iexc"])
-        what += " | minimal history [%s], %d recorded cases | key=%s" % ("; ".join(c["cls"]), len(c["cases"]), key)
+        what = "%s :: step %d (%s) of history [%s] under PYTHONHASHSEED=%d; alone: %s; %d recorded cases of this class" % (
+            key, i, h[i - 1], "; ".join(h), sd, ("ok " + ev["idig"]) if ev["iok"] else ev["iexc"], len(c["cases"]))
         run.violation(key, what, {"stage": stage, "history": list(h), "hashseed": sd, "step": i, "minimal": list(c["cls"]),
                                   "letters": letters, "models": models_of(set(h) | set(c["cls"])),
                                   "observed": {k: ev[k] for k in ("ok", "exc", "dig", "csv", "vks", "wks", "ams")},
